@@ -66,6 +66,10 @@ CHECKS["C08"] = dict(level="model_checking", engine="tlc-trace",
    technique="TLC-generated ascending chains and free walks with widenings on polyhedra, boxes, BD shapes, octagons and grids; the trace specifications judge every widening event: upper bound, equality with the same call on arguments rebuilt through another history, token rule against the plain widening of a copy, limited extrapolations between argument and plain widening keeping the supplied constraints, and strict decrease of the convergence certificate recomputed by the specification",
    text="Chain recipe: x_0; repeat 2-5 times [copy the iterate, grow it by generators / images / relaxations, widen with the copy], for H79 / BHRZ03 / limited / bounded extrapolations on C and NNC polyhedra, CC76 / BHMZ05 / H79 / limited extrapolations and CC76 narrowing on boxes, BD shapes and octagons (rational, integer and floating-point coefficients), congruence / generator / limited widenings on grids, each with and without tokens. The specification recomputes the H79 certificate (affine dimension, number of constraints), the BHRZ03 certificate (dimension, lineality, constraints, points, rays by zero coordinates), the grid certificate (equalities, proper congruences) and the CC76 stop-point ladder from the logged minimized descriptions.",
    note="Trusted: TLC, specs/lib oracles, the harnesses. Not covered: the BHZ03 powerset widening (see C09), CC76 certificates on BD shapes / octagons, finite convergence beyond the generated chain lengths (only the per-step certificate decrease is asserted). Known findings: NNC polyhedra widenings and grid widenings depend on the internal representation.", ref="§5 C08")
+CHECKS["C09"] = dict(level="model_checking", engine="tlc-trace",
+   technique="TLC-generated histories over pools of Pointset_Powerset<C_Polyhedron> and <NNC_Polyhedron>; PsetTrace.tla keeps the verified sequence of disjuncts of every slot and judges each event on UNIONS with an exact covering oracle (piece splitting + double-description emptiness)",
+   text="Histories with added (redundant, overlapping, adjacent, undetected-empty) disjuncts, omega / pairwise reduction, collapse, copies and assignments, meets, joins, differences, concatenation, time elapse, simplification in a context, constraints, affine transformers, dimension changes and the powerset widenings. The specification requires: reductions keep the union (simplification: the meet with the context) and do not add disjuncts; collapse is the base-level upper bound; every transformer yields the union of the exact base-level results on the disjuncts (operators shared with PolyTrace / ShapeTrace); difference, geometrically_covers, geometrically_equals exact; contains = entailment of disjuncts and implies covering; untouched copies keep their union.",
+   note="Trusted: TLC, specs/lib oracles, harness/pset.cc. Bounds: dimension <= 2, <= 4 disjuncts and <= 12 constraint rows per union (larger events undecided). Not covered: powersets of grids and of boxes / BD shapes / octagons. Known finding: BHZ03 widening with H79_Certificate throws on NNC disjuncts with strict constraints.", ref="§5 C09")
 NOT_YET = {}
 
 
